@@ -40,6 +40,7 @@ def ran(o, kind_sent_to):
 
 def run_e2(res, tier):
     cp, info = fam_basic.corpus(tier)
+    fam_basic.report_failed(res, cp)
     cases, exp = [], []
     for pid, (c, tags, names) in sorted(info.items()):
         if pid in cp.failed:
